@@ -218,6 +218,8 @@ FOLLOW = {
     "partner.le.append": lambda o: o.__dict__["_partner"].le.append(4), "tl.append": lambda o: o.tl.append(8), "read t": lambda o: o.t,
     "read tl": lambda o: list(o.tl), "e=bad": lambda o: setattr(o, "e", 5),
 }
+PROBE = ("read p", "read pdep", "read dyn", "read dynv", "e=10", "read p", "read pdep", "e=6", "read p", "read pdep",
+         "partner.e=8", "read t", "partner.le.append", "read tl")
 HANDLER_SITES = {"static_handler": "static", "otc_handler": "otc", "obs_handler": "obs", "items_handler": "items",
                  "obs_items_handler": "obs_items"}
 SYNC_OPS = ("sync scalar", "sync scalar bad", "sync list")
@@ -258,6 +260,13 @@ def run_with(case, k, exc):
             fol.append(("ok", repr(FOLLOW[f](o))))
         except Exception as e:
             fol.append((type(e).__name__,))
+    # closing probe, the same for every case: read every derived value, change the dependencies once more, read again
+    # (a stale cache or a lost invalidation shows up here even when the generated follow-up did not look)
+    for f in PROBE:
+        try:
+            fol.append(("probe", f, repr(FOLLOW[f](o))))
+        except Exception as e:
+            fol.append(("probe", f, type(e).__name__))
     return pre, post, err, sites, log, fol, snapshot(o)
 
 
